@@ -37,6 +37,39 @@ Definition LinkBound (w : world) : Prop :=
      (forall p l j, In (p, l) (m_origins x) -> In j l -> j < w_next w)) /\
   (forall f fl, nth_opt (w_files w) (N.to_nat f) = Some fl -> f_model fl < lenM w).
 
+(* the node part of LinkBound is C03's TreeInv; what it adds are the bounds on index values and on the model number in
+   file records *)
+Lemma LinkBound_of_TreeInv w :
+  TreeInv w ->
+  (forall m x, nth_opt (w_models w) (N.to_nat m) = Some x ->
+     (forall p j, In (p, j) (m_idents x) -> j < w_next w) /\
+     (forall p l j, In (p, l) (m_origins x) -> In j l -> j < w_next w)) ->
+  (forall f fl, nth_opt (w_files w) (N.to_nat f) = Some fl -> f_model fl < lenM w) ->
+  LinkBound w.
+Proof.
+  intros (C & (Hf & HR)) HI HF. split; [|split; [|exact HF]].
+  - intros i n Hn. split; [apply (c_alloc w C); exists n; exact Hn|]. split; [|split].
+    + intros c Hc. apply (c_alloc w C). assert (Hl : lists w i c). { exists n. split; [exact Hn|]. apply in_elems_c. exact Hc. }
+      destruct (c_up w C _ _ Hl) as (cn & Hcn & _). exists cn. exact Hcn.
+    + intros p Hp. apply (c_alloc w C). assert (Hl : lists w p i). { apply Hf. exists n. auto. }
+      destruct Hl as (pn & Hpn & _). exists pn. exact Hpn.
+    + intros m Hm. pose proof (HR _ _ _ Hn Hm) as E. assert (N.to_nat m < List.length (roots w))%nat.
+      { apply nth_error_Some. congruence. }
+      unfold roots in H. rewrite map_length in H. lia.
+  - intros m x Hx. destruct (HI m x Hx) as (H1 & H2). split; [|split; [exact H1|exact H2]].
+    assert (Hr : nth_error (roots w) (N.to_nat m) = Some (m_root x)).
+    { unfold roots. rewrite nth_error_map, <- nth_opt_nth_error, Hx. reflexivity. }
+    destruct (c_roots w C _ _ Hr) as (n & Hn & _). apply (c_alloc w C). exists n. exact Hn.
+Qed.
+
+Lemma LinkBound_empty : LinkBound empty_world.
+Proof.
+  split; [|split].
+  - intros i n H. discriminate H.
+  - intros m x H. cbn in H. destruct (N.to_nat m); discriminate H.
+  - intros f fl H. cbn in H. destruct (N.to_nat f); discriminate H.
+Qed.
+
 Section Six.
 Variables A B : id -> Prop.
 Variables AM AF BM BF : N -> Prop.
